@@ -317,3 +317,31 @@ func cellOf(v ssa.Value) ssa.Value {
 	}
 	return nil
 }
+
+// checkStoredEventsNotRewritten (C15.R1 / C17.R2): no code in package ebu assigns a field
+// of a StoredEvent it did not allocate itself. The memory store hands out pointers into
+// its log, so rewriting Type/Data in place renames the persisted record.
+func checkStoredEventsNotRewritten(c *Ctx, p *Prog, rule string) {
+	n := 0
+	for _, f := range p.FuncsIn(PkgBus) {
+		for _, b := range f.Blocks {
+			for _, in := range b.Instrs {
+				st, ok := in.(*ssa.Store)
+				if !ok {
+					continue
+				}
+				tn, fld, base, ok := fieldOfAddr(st.Addr)
+				if !ok || tn != "StoredEvent" {
+					continue
+				}
+				n++
+				if _, fresh := stripConv(base).(*ssa.Alloc); fresh {
+					c.Discharge(rule, "stored-event-field-writer/"+FuncDisplay(f)+"/"+fld, p.Pos(in.Pos()), "field of a StoredEvent allocated by this function")
+				} else {
+					c.Violate(rule, "stored-event-field-writer/"+FuncDisplay(f)+"/"+fld, p.Pos(in.Pos()), "StoredEvent."+fld+" of an event handed in from the store is overwritten in place: with the memory store this permanently changes the persisted record (its type name no longer is the one EventType reported when it was published)", nil)
+				}
+			}
+		}
+	}
+	c.Floor(rule, "StoredEvent field writers", n, 4)
+}
